@@ -13,7 +13,7 @@ RULE = ("generated calendars (holidays, gaps), bar tables with missing and zero-
         "API calls from every phase of every day; non-trivial = window shorter than the table and (adjusted or filtered or clamped); "
         "distinct = by (call kind, clamp/inside/outside class, window-vs-n class, adjust type, number of factor periods crossed)")
 TRUSTED = ["numpy/h5py/pandas plumbing below BaseDataSource is exercised, not modelled; weekly resampling ('1w') is not modelled"]
-ASSUMPTIONS = ["adjust_spec assumes EarlyReturnSound (monotone cumulative factors); a split later exactly undone is finding F15",
+ASSUMPTIONS = ["adjust_spec holds for every factor table (finding F15, the end-points-only shortcut of adjust_bars, is repaired); tables that return to an earlier value stay in the stream",
                "theorems over exact rationals; implementation compared bit-for-bit with the Float instance of the same model text"]
 
 
